@@ -105,6 +105,61 @@ def colJ (c : Col GQ) : Json :=
 def frameJ (fr : List (String × Col GQ)) : Json :=
   listJ (fun (p : String × Col GQ) => Json.arr #[.str p.1, colJ p.2]) fr
 
+def kindOfStr (k : String) : R Kind :=
+  match k with
+  | "bool" => pure .bool
+  | "int" => pure .int
+  | "float" => pure .float
+  | "complex" => pure .complex
+  | _ => throw s!"unknown kind {k}"
+
+def kindStr : Kind → String
+  | .bool => "bool" | .int => "int" | .float => "float" | .complex => "complex"
+
+/-- source of a session statement; `nobj0` = number of field objects at the start (the caller's arrays
+follow them in the store and never move) -/
+def sessSrcOfJson (st : Sess GQ) (nobj0 : Nat) (j : Json) : R (Src GQ) :=
+  match fldOpt j "obj" with
+  | some o => do pure (.obj (← natOfJson o))
+  | none =>
+    match fldOpt j "objarr" with
+    | some o => do pure (.buf (st.obj (← natOfJson o)).addr)
+    | none =>
+      match fldOpt j "buf" with
+      | some b => do pure (.buf (nobj0 + (← natOfJson b)))
+      | none => do pure (.pure (← specOfJson (← fld j "spec")))
+
+/-- a session statement, resolved against the session as it is NOW (`pokeobj` / `fillobj` write through
+`objs[i].array`) -/
+def sessStmtOfJson (st : Sess GQ) (nobj0 : Nat) (j : Json) : R (Stmt GQ) := do
+  let op ← strOfJson (← fld j "op")
+  match op with
+  | "set" => do pure (.set (← natOfJson (← fld j "i")) (← sessSrcOfJson st nobj0 (← fld j "src")))
+  | "upd" => do pure (.upd (← natOfJson (← fld j "i")) (← sessSrcOfJson st nobj0 (← fld j "src")))
+  | "new" => do pure (.new (← natOfJson (← fld j "i")) (← sessSrcOfJson st nobj0 (← fld j "src")))
+  | "pokeobj" => do
+      pure (.poke (st.obj (← natOfJson (← fld j "i"))).addr (← nats j "j") (← gqOfJson (← fld j "v")))
+  | "fillobj" => do pure (.fill (st.obj (← natOfJson (← fld j "i"))).addr (← gqOfJson (← fld j "v")))
+  | "pokebuf" => do pure (.poke (nobj0 + (← natOfJson (← fld j "b"))) (← nats j "j") (← gqOfJson (← fld j "v")))
+  | "fillbuf" => do pure (.fill (nobj0 + (← natOfJson (← fld j "b"))) (← gqOfJson (← fld j "v")))
+  | _ => throw s!"unknown statement {op}"
+
+/-- arrays of all field objects and of the caller's arrays -/
+def sessJ (st : Sess GQ) (nobj0 nbuf : Nat) (acc : Bool) : Json :=
+  Json.mkObj [("accepted", .bool acc),
+    ("objs", listJ (fun i => gndaToJson (forceG (st.field i).data)) (List.range st.objs.length)),
+    ("bufs", listJ (fun k => gndaToJson (forceG (st.buf (nobj0 + k)))) (List.range nbuf))]
+
+def runSession (nobj0 nbuf : Nat) : Sess GQ → List Json → R (List Json)
+  | _, [] => pure []
+  | st, j :: rest => do
+    let c ← sessStmtOfJson st nobj0 j
+    let r := st.step gqIsZero c
+    -- every buffer is evaluated once per step (the model's arrays are closures)
+    let st' : Sess GQ := { r.1 with store := r.1.store.map forceG }
+    let tail ← runSession nobj0 nbuf st' rest
+    pure (sessJ st' nobj0 nbuf r.2 :: tail)
+
 def c02 (op : String) (j : Json) : Option (R Json) :=
   match op with
   | "new" => some do
@@ -113,8 +168,24 @@ def c02 (op : String) (j : Json) : Option (R Json) :=
       let s ← specOfJson (← fld j "spec")
       let vdims ← optStrsOfJson j "vdims"
       let reserved ← strs j "reserved"
+      let fast ← match fldOpt j "fast" with
+        | some b => boolOfJson b
+        | none => pure false
+      -- source fields with thousands of cells: the source cell is computed by the closed formula and the result is
+      -- handed on as a per-cell array (theorems field_fast_path_equal + asArray_array: same outcome, same entries)
+      let s2 : M (Spec GQ) :=
+        match fast, s with
+        | true, .leaf (.field src) =>
+          if fieldFastOk src m then
+            match asLeafFieldFast src m nv with
+            | .ok a => .ok (.leaf (.arr (forceG a)))
+            | .error e => .error e
+          else .ok s
+        | _, _ => .ok s
       pure (resJ (fun (g : VF GQ) => Json.mkObj [("array", gndaToJson (forceG g.data)),
-        ("vdims", optStrsJ g.vdims)]) (VF.new? gqIsZero reserved m nv s vdims))
+        ("vdims", optStrsJ g.vdims)]) (match s2 with
+          | .error e => .error e
+          | .ok s3 => VF.new? gqIsZero reserved m nv s3 vdims))
   | "construct" => some do
       let m ← meshOfJson (← fld j "mesh")
       let nv ← natOfJson (← fld j "nvdim")
@@ -129,6 +200,31 @@ def c02 (op : String) (j : Json) : Option (R Json) :=
       let f ← vfOfJson (← fld j "field")
       let l ← leafOfJson (← fld j "leaf")
       pure (afterJ f (f.setArray gqIsZero l))
+  | "set_spec" => some do
+      let f ← vfOfJson (← fld j "field")
+      let s ← specOfJson (← fld j "spec")
+      pure (afterJ f (f.setSpec gqIsZero s))
+  | "kinds" => some do
+      let m ← meshOfJson (← fld j "mesh")
+      let nv ← natOfJson (← fld j "nvdim")
+      let s ← specOfJson (← fld j "spec")
+      let vk ← kindOfStr (← strOfJson (← fld j "vk"))
+      let dt ← match fldOpt j "dtype" with
+        | none => pure none
+        | some .null => pure none
+        | some d => some <$> (do kindOfStr (← strOfJson d))
+      pure (Json.mkObj [("set", .str (kindStr (specKind dt vk s m nv))),
+        ("upd", .str (kindStr (updKind dt vk s m nv)))])
+  | "session" => some do
+      let fs ← listOf vfOfJson (← fld j "fields")
+      let bufs ← listOf gndaOfJson (← fld j "bufs")
+      let prog ← listOf pure (← fld j "prog")
+      let st : Sess GQ := ⟨fs.map (·.data) ++ bufs,
+        (List.range fs.length).map fun i =>
+          let f := fs.getD i ⟨default, 0, NDA.const [] (0, 0), none⟩
+          ⟨f.mesh, f.nvdim, f.vdims, i⟩⟩
+      let states ← runSession fs.length bufs.length st prog
+      pure (Json.mkObj [("states", .arr states.toArray)])
   | "update" => some do
       let f ← vfOfJson (← fld j "field")
       let s ← specOfJson (← fld j "spec")
@@ -138,7 +234,10 @@ def c02 (op : String) (j : Json) : Option (R Json) :=
       let ops ← listOf (fun o => do
         match fldOpt o "set" with
         | some l => pure (Assign.set (← leafOfJson l))
-        | none => pure (Assign.upd (← specOfJson (← fld o "upd")))) (← fld j "ops")
+        | none =>
+          match fldOpt o "sets" with
+          | some sp => pure (Assign.setS (← specOfJson sp))
+          | none => pure (Assign.upd (← specOfJson (← fld o "upd")))) (← fld j "ops")
       pure (Json.mkObj [("state", gndaToJson (forceG (f.run gqIsZero ops).data))])
   | "region2slices" => some do
       let m ← meshOfJson (← fld j "mesh")
